@@ -1114,7 +1114,9 @@ def p_entry(payload, other, chunk):
                   ((enc,), {"checksum": chk}), ((enc.upper(),), {}), ((enc.upper(), chk.upper()), {})):
         r_, e = _exc(bcur.bcur_decode, *a, **kw)
         if e is not None or r_ != payload:
-            return f"bcur_decode{a[1:] and '(text, digest)' or '(text)'} with {sorted(kw)} does not give the payload"
+            how = ", ".join([["text", "digest"][i] if v is not None else "None" for i, v in enumerate(a)] + [f"{k}=…" for k in kw])
+            return (f"bcur_decode({how}) - one of the positional / keyword / default-argument forms - does not give the payload"
+                    f"{'' if e is None else ': raises ' + type(e).__name__}")
     if ochk != chk:
         for a, kw in (((enc, ochk), {}), ((enc,), {"checksum": ochk}), ((), {"data": enc, "checksum": ochk}), ((enc, ""), {}),
                       ((enc, chk[:-1]), {})):
@@ -1865,6 +1867,20 @@ def entrypoints(ctx):
             else:
                 bad[j], bad[j - 1] = bad[j - 1], bad[j]
             yield ("corr", "multi_parse_str", [[s.encode() for s in bad]])
+    # ---- (c) the number of strings against the y they announce (parse() does not count: the model decides)
+    for n in (0, 5, 40, 200):
+        payload = ctx.rbytes(n)
+        enc, chk = ref_bc32(ref_cbor(payload)), ref_chk(payload)
+        for k in (1, 2, 3):
+            cl = -(-len(enc) // k)
+            pieces = [enc[i * cl:(i + 1) * cl] for i in range(k)]
+            for y in (k + 1, k + 5, k):
+                ctx.label("count-vs-y/" + ("complete-text-under-larger-y" if y > k else "exact"))
+                yield ("corr", "multi_parse_str", [[f"ur:bytes/{i + 1}of{y}/{chk}/{pc}".encode() for i, pc in enumerate(pieces)]])
+                yield ("corr", "multi_parse", [[[4, i + 1, y, chk, pc] for i, pc in enumerate(pieces)]])
+            ctx.label("count-vs-y/empty-last-part-present-or-dropped")
+            yield ("corr", "multi_parse_str", [[f"ur:bytes/{i + 1}of{k + 1}/{chk}/{pc}".encode() for i, pc in enumerate(pieces + [""])]])
+            yield ("corr", "multi_parse_str", [[f"ur:bytes/{i + 1}of{k + 1}/{chk}/{pc}".encode() for i, pc in enumerate([""] + pieces)]])
     # ---- (a, b, g) defaults, positional / keyword forms, results and arguments used again
     for n in [0, 1, 22, 23, 24, 100, 255, 256, 400, 1000] + [r.randrange(0, 500) for _ in range(ctx.n(6, 80))]:
         payload = ctx.rbytes(n)
